@@ -1,7 +1,7 @@
 """C16 - TypeContext lookups see through aliases and references (model-based, stateful).
 
 Keys: a closed family synthesised in one module: 3 base classes (dataclass D, Enum E,
-NamedTuple N) x {itself, NewType, TypeAliasType(value), TypeAliasType('string'), Final[..],
+NamedTuple N) and the builtin int (base I, whose naming reference lives in another module than its aliases) x {itself, NewType, TypeAliasType(value), TypeAliasType('string'), Final[..],
 ForwardRef(name, module), NewType of the NewType, Final[alias], alias of the NewType}.  Operations: insert fresh key, [], get(k, default), `in` (stored keys).
 
 Oracle: a reference model (write-once dict + the documented three-step lookup). The harness
@@ -10,7 +10,7 @@ knows each key's unwrapped form and naming reference *by construction*.
 * exhaustive part: breadth-first exploration of all operation sequences up to length 6 for every
   pair of base types, with prefix-state deduplication (two prefixes that leave the same context
   contents have the same futures);
-* random part: a Hypothesis RuleBasedStateMachine, up to 40 steps over all 24 keys.
+* random part: a Hypothesis RuleBasedStateMachine, up to 40 steps over all 37 keys.
 """
 
 from __future__ import annotations
@@ -28,7 +28,7 @@ from harness.core import st
 
 ID = "C16"
 RULE = ("exhaustive BFS of all operation sequences of length <= 5 (quick) or 6 (thorough) per pair of base types with state "
-        "deduplication, plus random state-machine histories of <= 40 steps over 24 keys; non-trivial = a lookup "
+        "deduplication, plus random state-machine histories of <= 40 steps over 37 keys; non-trivial = a lookup "
         "answered through the unwrapped-form or forward-reference path, or any lookup issued after a lookup "
         "that memoised an alias key; distinct by (context contents before the operation, operation)")
 ASSUMPTIONS = ["base types are module-level classes so that 'the forward reference naming it' is one well-defined object",
@@ -36,9 +36,9 @@ ASSUMPTIONS = ["base types are module-level classes so that 'the forward referen
 TECHNIQUE = "model-based testing: exhaustive bounded BFS over operation sequences with state deduplication + Hypothesis rule-based state machine, compared step by step with a reference model"
 LEVEL_TEXT = ("Every operation sequence up to length 5 (quick) / 6 (thorough) over the 16 keys of each pair of base types is executed against the "
               "real TypeContext and a 20-line reference model (complete for that bound); longer random histories over all "
-              "24 keys are explored with a Hypothesis state machine.")
+              "37 keys are explored with a Hypothesis state machine.")
 LEVEL_NOTE = "trusts the reference model's reading of the three-step lookup order and typing.ForwardRef equality (name, module)"
-EXHAUSTIVE_NOTE = "all sequences of length <= 5 (quick) / <= 6 (thorough) over {insert, [], get, in} x 16 keys for each of the 3 pairs of base types (deduplicated by reachable context contents)"
+EXHAUSTIVE_NOTE = "all sequences of length <= 5 (quick) / <= 6 (thorough) over {insert, [], get, in} x 16 keys for each of 4 pairs of base types (deduplicated by reachable context contents)"
 
 MOD = "c16_keys_mod"
 SRC = '''
@@ -56,21 +56,34 @@ class N(NamedTuple):
     y: int
 
 KEYS = {}
-for _b in (D, E, N):
-    _n = _b.__name__
+# base I is the builtin `int`: its aliases live in this module, the class itself does not, so the reference a
+# string-valued alias unwraps to (module = this module) and the reference naming the class (module = builtins) differ
+for _n, _b, _txt in (("D", D, "D"), ("E", E, "E"), ("N", N, "N"), ("I", int, "int")):
     KEYS[_n, "self"] = _b
     KEYS[_n, "newtype"] = NewType(_n + "_new", _b)
     KEYS[_n, "alias"] = TypeAliasType(_n + "_alias", _b)
-    KEYS[_n, "stralias"] = TypeAliasType(_n + "_str", _n)
+    KEYS[_n, "stralias"] = TypeAliasType(_n + "_str", _txt)
     KEYS[_n, "final"] = Final[_b]
-    KEYS[_n, "ref"] = ForwardRef(_n, module=__name__)
+    KEYS[_n, "ref"] = ForwardRef(_txt, module=__name__)
+    if _b.__module__ != __name__:
+        KEYS[_n, "nref"] = ForwardRef(_txt, module=_b.__module__)
     KEYS[_n, "newtype2"] = NewType(_n + "_new2", KEYS[_n, "newtype"])        # NewType of a NewType
     KEYS[_n, "finalalias"] = Final[KEYS[_n, "alias"]]                        # Final[alias]
     KEYS[_n, "aliasnew"] = TypeAliasType(_n + "_aliasnew", KEYS[_n, "newtype"])  # alias whose value is a NewType
 '''
 
 FORMS = ["self", "newtype", "alias", "stralias", "final", "ref", "newtype2", "finalalias", "aliasnew"]
-BASES = ["D", "E", "N"]
+BASES = ["D", "E", "N", "I"]
+BFS_PAIRS = [("D", "E"), ("D", "N"), ("E", "N"), ("I", "D")]
+
+
+def forms_of(base):
+    return FORMS + (["nref"] if base == "I" else [])
+
+
+def naming_ref(base):
+    """the forward reference naming the base class (what a lookup of the class itself falls back to)"""
+    return (base, "nref") if base == "I" else (base, "ref")
 _KEYS = None
 
 
@@ -101,13 +114,13 @@ def model_lookup(stored: dict, k):
     if k in stored:
         return stored[k]
     base, form = k
-    if form == "ref":
+    if form in ("ref", "nref"):
         return MISS
     unwrapped = (base, "ref") if form == "stralias" else (base, "self")
     if unwrapped != k and unwrapped in stored:
         return stored[unwrapped]
-    if form == "self" and (base, "ref") in stored:
-        return stored[(base, "ref")]
+    if form == "self" and naming_ref(base) in stored:
+        return stored[naming_ref(base)]
     return MISS
 
 
@@ -115,12 +128,12 @@ def model_path(stored: dict, k):
     if k in stored:
         return "direct"
     base, form = k
-    if form == "ref":
+    if form in ("ref", "nref"):
         return "miss"
     unwrapped = (base, "ref") if form == "stralias" else (base, "self")
     if unwrapped != k and unwrapped in stored:
         return "unwrapped"
-    if form == "self" and (base, "ref") in stored:
+    if form == "self" and naming_ref(base) in stored:
         return "forwardref"
     return "miss"
 
@@ -194,7 +207,7 @@ def rebuild(state):
 # ---- exhaustive BFS ------------------------------------------------------------------------------
 
 def bfs(pair, depth, col):
-    ks = [(b, f) for b in pair for f in FORMS]
+    ks = [(b, f) for b in pair for f in forms_of(b)]
     # node: (impl contents, model stored (frozenset of items), memo_happened)
     start = (frozenset(), frozenset(), False)
     frontier = {start: ()}
@@ -244,7 +257,7 @@ def bfs(pair, depth, col):
 # ---- random state machine ----------------------------------------------------------------------
 
 def machine(col, seed, n_examples, steps):
-    all_keys = [(b, f) for b in BASES for f in FORMS]
+    all_keys = [(b, f) for b in BASES for f in forms_of(b)]
 
     class M(RuleBasedStateMachine):
         def __init__(self):
@@ -312,7 +325,7 @@ def machine(col, seed, n_examples, steps):
 def plan(tier, seed):
     # 18 keys per pair of bases: length 5 is complete in seconds, length 6 (thorough) takes about a minute
     depth = 5 if tier == "quick" else 6
-    shards = [{"kind": "bfs", "pair": list(p), "depth": depth} for p in itertools.combinations(BASES, 2)]
+    shards = [{"kind": "bfs", "pair": list(p), "depth": depth} for p in BFS_PAIRS]
     n = 150 if tier == "quick" else 3000
     for k in range(13):
         shards.append({"kind": "random", "seed": seed * 1000 + k, "n": n})
